@@ -1,5 +1,5 @@
 \* spec mutation "skipDrain": TLC must reject it (vacuity guard)
-CONSTANTS Pods = {"p1", "p2"}  Tol = {"p2"}
+CONSTANTS Pods = {"p1", "p2"}  Tol = {"p2"}  Late = {"p2"}
   Starts = {"registered"}
   VaOwners = {"p1"}  TGPs <- BoolBoth  Instants <- BoolF
   MaxFaults = 0  MaxRestarts = 0  MaxLen = 1000  MaxSpont = 99
